@@ -97,7 +97,7 @@ func GenScope(t *Tape) *Scenario {
 			c.res(host, path, "", 1, May, OK(ct, b))
 		}
 	}
-	nonHTTP := []string{"ftp://site1.example/f.png", "javascript:alert(1)", "data:text/plain,hi", "mailto:x@site1.example", "http://localhost/x.png", "http://127.0.0.1/x.png", "http://intranet/x.png", "http://archive.org/x.png", "https://web.archive-it.org/x.png", "file:///etc/passwd", "gopher://site1.example/1"}
+	nonHTTP := []string{"ftp://site1.example/f.png", "javascript:alert(1)", "data:text/plain,hi", "mailto:x@site1.example", "http://localhost/x.png", "http://127.0.0.1/x.png", "http://127.0.0.1:8080/x.png", "//127.0.0.1:9000/x.js", "http://localhost:8080/x.png", "http://intranet/x.png", "http://intranet:8080/x.png", "http://archive.org/x.png", "https://web.archive-it.org/x.png", "file:///etc/passwd", "gopher://site1.example/1"}
 	link := func() string {
 		r := c.N(10)
 		switch {
